@@ -114,12 +114,42 @@ def rule_g1(ctx, F):
         text_gate(ctx, "G1", r, [], [("the output ends with a newline", [(("last", "ne"), False), (("last", "!="), False), (("Err",), True)])], accept_desc="return", est_pts=nl, at_exit=True)
 
 
+def rule_p2(ctx, F):
+    """A reused Highlighter's parser is reset before every parse of a layer (a previous call may
+    have been cancelled mid-parse; without a reset the parser resumes the old document)."""
+    fn = find_fn(ctx, F, "HighlightIterLayer::new", "P2")
+    if not fn:
+        return
+    parses = [pt for pt, c, d in calls_named(fn, "Parser::parse")]
+    resets = [pt for pt, c, d in calls_named(fn, "Parser::set_language")] + [pt for pt, c, d in calls_named(fn, "Parser::reset")]
+    ctx.floor("parse calls in HighlightIterLayer::new", len(parses), 1)
+    # every parse is preceded by a reset *since the previous parse* (loop over layers)
+    class M2(Monitor):
+        def elem(self, m, pt, e, s):
+            if pt in resets:
+                return True
+            if pt in parses:
+                if not m:
+                    return Viol("a layer is parsed without the parser having been reset (set_language/reset) since its last use", pt)
+                return False
+            return m
+    s = Search(fn, M2(), budget=3000000)
+    v = s.run(False)
+    if v is None:
+        ctx.ok("P2", "HighlightIterLayer::new:reset-before-parse", "each layer's parse is preceded by Parser::set_language (which resets the parser) or Parser::reset",
+               sample={"function": fn.name, "parses": [fn.loc(p) for p in parses], "resets": [fn.loc(p) for p in resets]})
+    else:
+        ctx.bad("P2", "HighlightIterLayer::new:reset-before-parse", "HighlightIterLayer::new: %s — after a cancelled highlight the next call resumes the old document's parse" % v.msg,
+                {"site": fn.loc(v.pt), "path": s.render_path(v.path)[-6:]})
+
+
 def run(ctx):
     ctx.config = "rust"
     F = ctx.extract.rsfacts(CRATE)
     ctx.analysed["rust_functions"] = len(F.fn_list)
     rule_p1(ctx, F)
     rule_g1(ctx, F)
+    rule_p2(ctx, F)
     return ctx.finish(
         "Pairing, who-may-construct and gate rules over rustc MIR of tree-sitter-highlight: HighlightStart↔push and HighlightEnd↔pop of the end stack in both directions and nowhere else; "
         "Source spans only from emit_event (advancing byte_offset) and the tail; None only after the tail; raw bytes reach the HTML only unescaped-safe, never CR; final newline. "
